@@ -120,6 +120,30 @@ async fn run_case(case: &Value) -> Value {
                     Err(m) => o["panic"] = json!(m),
                 }
             }
+            // C05: the comparison pool.get()'s candidate filter uses (`address.role == role`,
+            // impl PartialEq<Option<Role>> for Role) on real Address values
+            "role_eq" => {
+                let parse = |x: Option<&str>| match x {
+                    Some("primary") => Some(Role::Primary),
+                    Some("replica") => Some(Role::Replica),
+                    Some("mirror") => Some(Role::Mirror),
+                    _ => None,
+                };
+                let want = parse(step.get("want").and_then(|x| x.as_str()));
+                let addrs: Vec<pgcat::config::Address> = step["addrs"]
+                    .as_array()
+                    .unwrap()
+                    .iter()
+                    .enumerate()
+                    .map(|(i, r)| pgcat::config::Address {
+                        id: i,
+                        role: parse(r.as_str()).unwrap(),
+                        ..Default::default()
+                    })
+                    .collect();
+                let kept: Vec<usize> = addrs.iter().filter(|address| address.role == want).map(|a| a.id).collect();
+                o["kept"] = json!(kept);
+            }
             // Q message through try_execute_command (what handle_custom_protocol calls first)
             "command" => {
                 let m = if step.get("raw").is_some() {
